@@ -69,16 +69,14 @@ Theorem precedence_partial : prec_all = true.
 Proof. exact prec_all_ok. Qed.
 Print Assumptions precedence_partial.
 
-(* first clause fails for the leaf `label` while the DEFAULTS literal does not list it: show() rejects style_label
-   although every style has that leaf (with `label` in the literal the hypothesis is false and prec_all covers it) *)
-Theorem precedence_show_label_refuted :
-  smem "label" valid_keys = false ->
-  snd (get_style colors (class_schema "Cuboid") (class_families "Cuboid") dstyle_schema
-                 (def_style_state pristine) valid_keys (fresh_state (class_schema "Cuboid"))
-                 (show_style_kwargs [("style_label", Leaf (Some (VStr "lbl")))])) = Some EValue
-  /\ has_leaf (class_schema "Cuboid") ["label"] = true.
-Proof. exact show_label_witness. Qed.
-Print Assumptions precedence_show_label_refuted.
+(* ... and `label` is one of those leaves: show(obj, style_label=..) is accepted and wins (5f59f3d) *)
+Theorem precedence_covers_label :
+  smem "label" valid_keys = true /\ prec_leaf KToStr ["label"] = true /\
+  In "Cuboid" public_classes /\ In (["label"], KToStr, false) (sleaves (class_schema "Cuboid")) /\
+  prec_holds "Cuboid" ["label"] (VStr "shown") (VStr "own") (VStr "fam") (VStr "gen") (VStr "base")
+             (mkSrc true true false false true) false NAttr = true.
+Proof. exact show_label_covered. Qed.
+Print Assumptions precedence_covers_label.
 
 (* every leaf of the DEFAULTS literal is what freshly built settings hold (after its validator) *)
 Theorem fresh_settings_hold_the_literal_defaults : literal_all = true.
@@ -106,6 +104,20 @@ Print Assumptions reset_ignores_current_settings.
 Theorem reset_restores_every_leaf : reset_all = true.
 Proof. exact reset_all_ok. Qed.
 Print Assumptions reset_restores_every_leaf.
+
+(* ---- the style setter: obj.style = <dict | style instance | anything else> ---- *)
+(* assigning an instance of the style class wins over everything assigned before, for every schema / state /
+   instance (the dict case is `update`, covered by lw_all) *)
+Theorem style_instance_assignment_wins :
+  forall (s : schema) (st inst : tree),
+    set_style colors style_setter_takes_instance s st (SInst inst) = (inst, None).
+Proof. exact style_instance_takes_over. Qed.
+Print Assumptions style_instance_assignment_wins.
+
+Theorem style_setter_rejects_other_values :
+  forall (t : bool) (s : schema) (st : tree), set_style colors t s st SWrong = (st, Some EValue).
+Proof. exact style_wrong_rejected. Qed.
+Print Assumptions style_setter_rejects_other_values.
 
 (* ---- independence at the dictionary level: who may write into the caller's dictionaries ---- *)
 (* the constructor leaves the caller's style dict as it was (form of _process_style_kwargs, from GenStyle) *)
@@ -153,6 +165,11 @@ Theorem record_inplace_magic_to_dict_writes_into_argument :    (* before c3df3ef
   = [("path", Node [("show", Leaf (Some (VBool true)))]); ("path_show", Leaf (Some (VBool true)))].
 Proof. exact magic_arg_inplace_witness. Qed.
 Print Assumptions record_inplace_magic_to_dict_writes_into_argument.
+
+Theorem record_style_instance_was_ignored :                   (* before 9298ef3 *)
+  forall (s : schema) (st inst : tree), set_style colors false s st (SInst inst) = (st, None).
+Proof. exact style_instance_ignored_record. Qed.
+Print Assumptions record_style_instance_was_ignored.
 
 (* non-vacuity: the quantifiers inside the *_all terms range over non-empty sets *)
 Example c20_nonvacuous :
